@@ -133,10 +133,13 @@ Lemma cur_cmd_eq s s' t :
 Proof. intros H1 H2. unfold cur_cmd. rewrite H1, H2. reflexivity. Qed.
 
 Lemma Fr_mono cf s g t x t' v :
-  LtFresh s g -> cur_cmd (fst (step cf s t x)) t' = cur_cmd s t' ->
+  LtFresh s g -> (forall c, named (fst (step cf s t x)) t' c -> named s t' c) ->
   g_start (snd (gstep cf (s, g) t x)) t' = g_start g t' ->
   Fr s g t' v -> Fr (fst (step cf s t x)) (snd (gstep cf (s, g) t x)) t' v.
 Proof.
-  intros LF Hc Hst H c Hcc. unfold cur_cont0 in Hcc. rewrite Hc in Hcc. specialize (H c Hcc).
+  intros LF Hc Hst H c Hcc. specialize (H c (Hc c Hcc)).
   rewrite Hst. pose proof (g_lt_mono cf s g t x LF c v). lia.
 Qed.
+
+Lemma named_thr s s' t c : thr s' t = thr s t -> named s' t c -> named s t c.
+Proof. intros H. unfold named, ld, cur_cont0, cur_cmd. rewrite H. auto. Qed.
